@@ -45,8 +45,7 @@ def contracts(reg):
     from contracts import C07, readfile
     for c in C07.contracts(reg):
         if c.target.startswith(C07.ROUTER) or c.target.startswith(C07.MIME):
-            c.assumed = True
-            c.note = "verified by the C07 pack"
+            c.note = "C07's functional contract, verified here on the real body (round 7: was assumed)"
             out.append(c)
     out.append(FnContract(
         target=f"{readfile.INIT}::read_file",
